@@ -142,9 +142,26 @@ def _gen_pair(rng):
             'sched': _gen_sched(rng, nops)}
 
 
+def _gen_snapshot(rng):
+    """A shared cache worked on by one or two threads, and a thread that copies it into a cache of its own with
+    update()/|=/values=: what it gets must be the shared cache as it was between two operations."""
+    cls = rng.choice(['LRI', 'LRU'])
+    max_size = rng.choice([1, 2, 2, 3])
+    keys = [1, 2, 3, 4][:rng.randint(2, 4)]
+    writers = [[op for op in _gen_ops(rng, keys, rng.randint(1, 3), 'w%d' % t) if op[0] != 'copy'] or [['set', keys[0], 'w%d.x' % t]]
+               for t in range(rng.choice([1, 1, 2]))]
+    preload = [[keys[i % len(keys)], 'p%d' % i] for i in range(rng.randint(0, max_size))]
+    nops = sum(len(t) for t in writers) + 1
+    return {'mode': 'snapshot', 'cls': cls, 'max_size': max_size, 'on_miss': 'none', 'preload': preload, 'threads': writers,
+            'how': rng.choice(['update', 'ior', 'values']), 'sched': _gen_sched(rng, nops)}
+
+
 def gen_case(rng, tier):
-    if rng.random() < 0.06:
+    r0 = rng.random()
+    if r0 < 0.06:
         return _gen_pair(rng)
+    if r0 < 0.10:
+        return _gen_snapshot(rng)
     cls = rng.choice(['LRI', 'LRU'])
     max_size = rng.choice([1, 2, 2, 3, 3, 4])
     keys = rng.choice([[1, 2, 3, 4, 5], ['a', 'b', 'c', 'd', 'e']])[:rng.randint(2, 5)]
@@ -425,9 +442,105 @@ def _run_pair(case):
     return out
 
 
+def _run_snapshot(case):
+    out = core.Outcome()
+    log = core.EventLog(keep=False)
+    writers = case['threads']
+    nthreads = len(writers) + 1
+    sched = threadsim.Scheduler(threadsim.make_policy(case['sched'], nthreads), log, step_cap=case.get('step_cap', 40000))
+    ctx = L.Ctx(sched)
+    spec = M.Spec(case['cls'], case['max_size'], 'none')
+    shared = L.make_cache({'cls': case['cls'], 'max_size': case['max_size'], 'on_miss': 'none'}, ctx, sched)
+    state = spec.initial()
+    for k, v in case['preload']:
+        shared[L.dk(k)] = L.dk(v)
+        state = M.apply(spec, state, ('set', L.dk(k), L.dk(v)))[0][1]
+    ctx2 = L.Ctx(sched)
+    mine = L.make_cache({'cls': 'LRI', 'max_size': 64, 'on_miss': 'none'}, ctx2, sched)
+    got = {}
+
+    def writer(tid, ops):
+        def run():
+            for i, op in enumerate(ops):
+                sched.yield_point(('invoke', tid, i))
+                L.exec_op(shared, op, ctx)
+                sched.yield_point(('return', tid, i))
+        return run
+
+    def reader():
+        sched.yield_point(('invoke', nthreads - 1, 0))
+        try:
+            if case['how'] == 'update':
+                mine.update(shared)
+                got['items'] = dict(mine)
+            elif case['how'] == 'ior':
+                c = mine
+                c |= shared
+                got['items'] = dict(mine)
+            else:
+                import threading
+                saved = (threading.RLock, threading.Lock)
+                threading.RLock = lambda *a, **k: threadsim.SimRLock(sched)
+                threading.Lock = lambda *a, **k: threadsim.SimLock(sched)
+                try:
+                    got['items'] = dict(L.cu.LRI(max_size=64, values=shared))
+                finally:
+                    threading.RLock, threading.Lock = saved
+        except threadsim.SimAbort:
+            raise
+        except Exception as e:
+            got['exc'] = type(e).__name__
+        sched.yield_point(('return', nthreads - 1, 0))
+
+    for tid, ops in enumerate(writers):
+        sched.spawn(writer(tid, ops))
+    sched.spawn(reader)
+    reason = sched.run()
+    out.steps = sched.step
+    out.sim_time = float(sched.step)
+    if reason == 'deadlock':
+        out.fail('deadlock', sched.step, 'copying a shared cache while it is used: no runnable thread (%s)' % _blocked(sched), mode='snapshot')
+    elif reason == 'no-progress':
+        out.fail('no-progress', sched.step, 'more than %d scheduler steps' % sched.step_cap, mode='snapshot')
+    elif 'exc' in got:
+        if got['exc'] in ('RuntimeError', 'KeyError'):
+            out.known.append('C03-F1')
+        else:
+            out.fail('impossible-exception', 0, 'update() from a shared cache raised %s' % got['exc'], mode='snapshot', exc=got['exc'])
+    else:
+        # every state the shared cache can be in between two of the writers' operations (each is atomic)
+        allowed = []
+        seen = set()
+        frontier = [(tuple([0] * len(writers)), state)]
+        while frontier:
+            done, st = frontier.pop()
+            key = (done, st[0])
+            if key in seen:
+                continue
+            seen.add(key)
+            allowed.append(M.contents(st))
+            for t, ops in enumerate(writers):
+                if done[t] < len(ops):
+                    for _o, st2, _v, _c in M.apply(spec, st, L.model_op(ops[done[t]])):
+                        frontier.append((done[:t] + (done[t] + 1,) + done[t + 1:], st2))
+        if got.get('items') not in allowed:
+            out.fail('torn-snapshot', 0, '%s of a shared %s(max_size=%d) gave %r while %r ran: the cache never held exactly that '
+                     'between two operations (states: %r)' % (case['how'], case['cls'], case['max_size'], got.get('items'),
+                                                               writers, allowed[:8]), mode='snapshot')
+        elif sched.switches:
+            out.probe('snapshot_of_shared_cache_under_writes')
+            out.nontrivial.append(core.h64(['snapshot', case['cls'], case['max_size'], writers, case['how'],
+                                            [(f, t) for _s, f, t, _w in sched.switches]]))
+    out.extra['switches'] = [[0, sched.first]] + [[s_, to] for s_, _f, to, _w in sched.switches]
+    out.digest = log.digest()
+    return out
+
+
 def run_case(case):
     if case.get('mode') == 'pair':
         return _run_pair(case)
+    if case.get('mode') == 'snapshot':
+        return _run_snapshot(case)
     out = core.Outcome()
     log = core.EventLog(keep=False)
     nthreads = len(case['threads'])
